@@ -18,13 +18,41 @@ from .absgroup import norm, strip_mod, norm_mod
 ENCPT = z3.Function("ENCPT", z3.IntSort(), z3.IntSort(), z3.IntSort())
 
 
+class Coord:
+    """one extended coordinate (X, Y, Z or T) of an abstract point.  The coordinates have no value in this domain; the only
+    things code outside the four kernels may do with them and stay modelled are: reduce them (`% Q`, a no-op on the
+    residue class) and flip their sign.  (-X, Y, Z, -T) is then recognised as the inverse point by EdAbs.lift; any other
+    arithmetic on a coordinate is outside the abstract-point model (EngineUnsupported, never an exception of the code)"""
+    __slots__ = ("owner", "idx", "sign")
+
+    def __init__(self, owner, idx, sign=1):
+        self.owner, self.idx, self.sign = owner, idx, sign
+
+    def __neg__(self):
+        return Coord(self.owner, self.idx, -self.sign)
+
+    def __pos__(self):
+        return self
+
+    def __mod__(self, m):
+        return self
+
+    def _no(self, *a):
+        raise EngineUnsupported("arithmetic on the coordinates of an abstract point outside the curve kernels")
+    __add__ = __radd__ = __sub__ = __rsub__ = __mul__ = __rmul__ = __floordiv__ = __pow__ = __lt__ = __le__ = __gt__ = __ge__ = _no
+    __int__ = __index__ = __bool__ = _no
+
+
 class AbsPt(tuple):
     """a 4-tuple (so the real constructors' asserts pass) carrying (k, t)"""
     L = None
     def __new__(cls, k, t):
-        # the first slot is a fresh object: two abstract points never compare equal as tuples unless they are the very
+        # the slots are fresh objects: two abstract points never compare equal as tuples unless they are the very
         # same representation (value-equal points reached by different routes have different coordinates in general)
-        o = tuple.__new__(cls, (object(), None, None, None))
+        cs = [Coord(None, i) for i in range(4)]
+        o = tuple.__new__(cls, cs)
+        for c in cs:
+            c.owner = o
         o.k = norm_mod(k if z3.is_expr(k) else z3.IntVal(k), AbsPt.L) if AbsPt.L else norm(k if z3.is_expr(k) else z3.IntVal(k))
         o.t = norm(t if z3.is_expr(t) else z3.IntVal(t))
         return o
@@ -47,6 +75,17 @@ class EdAbs:
         if isinstance(pt, AbsPt):
             return pt
         key = tuple(pt)
+        if len(key) == 4 and all(isinstance(c, Coord) for c in key):
+            own = key[0].owner
+            if all(c.owner is own and c.idx == i for i, c in enumerate(key)):
+                signs = tuple(c.sign for c in key)              # slots are (X, Y, Z, T)
+                if signs == (1, 1, 1, 1):
+                    return own
+                if signs == (-1, 1, 1, -1):                     # (-x, y) is the inverse of (x, y)
+                    return AbsPt(-own.k, -own.t)
+                if signs == (1, -1, -1, 1):                     # the same projective point as (-X, Y, Z, -T)
+                    return AbsPt(-own.k, -own.t)
+            raise EngineUnsupported("a tuple assembled from coordinates of abstract points outside the curve kernels")
         if key in self.const:
             k, t = self.const[key]
             return AbsPt(k, t)
@@ -66,7 +105,8 @@ class EdAbs:
 
         def conc(*pts):
             """all operands are plain concrete tuples without an abstract image: use the real kernel"""
-            return all(not isinstance(p, (AbsPt, Aff)) and tuple(p) not in me.const for p in pts)
+            return all(not isinstance(p, (AbsPt, Aff)) and not any(isinstance(c, Coord) for c in tuple(p))
+                       and tuple(p) not in me.const for p in pts)
 
         def add(a, b):
             a, b = me.lift(a), me.lift(b)
